@@ -106,6 +106,8 @@ func handleReq(kind string, f []string, home string) string {
 		return implHist(unhx(f[0]), parseTerm(f[1]), f[2:], home)
 	case "conc":
 		return implConc(unhx(f[0]), parseTerm(f[1]), f[2:], home)
+	case "loadconc":
+		return implLoadConc(unhx(f[0]), parseTerm(f[1]), f[2:], home)
 	}
 	return "BADKIND"
 }
@@ -265,6 +267,21 @@ func descList(xs []any) string {
 }
 
 func register(ty, name string, fid int) error {
+	if fid == 9 {
+		// a nil function value: the name is taken, nothing is callable
+		switch ty {
+		case "str":
+			return textwire.RegisterStrFunc(name, nil)
+		case "arr":
+			return textwire.RegisterArrFunc(name, nil)
+		case "int":
+			return textwire.RegisterIntFunc(name, nil)
+		case "float":
+			return textwire.RegisterFloatFunc(name, nil)
+		case "bool":
+			return textwire.RegisterBoolFunc(name, nil)
+		}
+	}
 	switch ty {
 	case "str":
 		if fid == 0 {
@@ -290,6 +307,14 @@ func register(ty, name string, fid int) error {
 			return textwire.RegisterArrFunc(name, func(a []any, args ...any) []any {
 				out := append([]any{}, a...)
 				return append(out, args...)
+			})
+		}
+		if fid == 3 {
+			// extends the slice it was given, first by a value of its own, then by its arguments
+			return textwire.RegisterArrFunc(name, func(a []any, args ...any) []any {
+				a = append(a, "tag")
+				a = append(a, args...)
+				return a
 			})
 		}
 		return textwire.RegisterArrFunc(name, func(a []any, args ...any) []any { return []any{descList(a), descList(args)} })
@@ -424,9 +449,28 @@ func implOp(op *term, tpl **textwire.Template, cwd string) string {
 		if err != nil {
 			e = canonErr(err.Error(), cwd)
 		}
-		return "RESP " + hxOut(rec.Body.String()) + " " + e
+		// what a client receives: a declared Content-Length cuts the body off there (net/http refuses
+		// to write more), and a longer one leaves the response incomplete
+		body := rec.Body.String()
+		if cl := rec.Header().Get("Content-Length"); cl != "" {
+			if n, perr := strconv.Atoi(cl); perr == nil && n >= 0 {
+				if n < len(body) {
+					body = body[:n]
+				} else if n > len(body) {
+					return fmt.Sprintf("RESP-INCOMPLETE declared %d bytes, wrote %d", n, len(body))
+				}
+			}
+		}
+		return "RESP " + hxOut(body) + " " + e
 	case "EVS":
 		out, err := textwire.EvaluateString(unhx(a[0].atom), termToGV(a[1]).DataMap())
+		if err != nil {
+			return canonErr(err.Error(), cwd)
+		}
+		return "OK " + hxOut(out)
+	case "EVFR":
+		// the path as the caller wrote it, relative to the working directory
+		out, err := textwire.EvaluateFile(unhx(a[0].atom), termToGV(a[1]).DataMap())
 		if err != nil {
 			return canonErr(err.Error(), cwd)
 		}
@@ -448,6 +492,74 @@ func implOp(op *term, tpl **textwire.Template, cwd string) string {
 // before the marker "--" are set-up (NewTemplate, Register*) and run once; the others are run
 // sequentially for a baseline and then by G goroutines at the same time.
 var coldBatch int64
+
+// implLoadConc: the tree is loaded again and again while other goroutines evaluate strings and files
+// (a server that reloads its templates while it serves): every load answers what it answers alone.
+// fields: G, loads, the NEW operation, then the operations the other goroutines repeat
+func implLoadConc(cwd string, fsT *term, f []string, home string) string {
+	G, _ := strconv.Atoi(f[0])
+	loads, _ := strconv.Atoi(f[1])
+	newOp := parseTerm(f[2])
+	var side []*term
+	for _, o := range f[3:] {
+		side = append(side, parseTerm(o))
+	}
+	os.RemoveAll(cwd)
+	os.MkdirAll(cwd, 0o755)
+	defer func() {
+		os.Chdir(home)
+		os.RemoveAll(cwd)
+	}()
+	for _, e := range fsT.list {
+		if len(e.list) >= 3 && e.list[1].atom == "f" {
+			p := filepath.Join(cwd, unhx(e.list[0].atom))
+			os.MkdirAll(filepath.Dir(p), 0o755)
+			os.WriteFile(p, []byte(unhx(e.list[2].atom)), 0o644)
+		}
+	}
+	os.Chdir(cwd)
+	textwire.VerifReset()
+	var t0 *textwire.Template
+	want := safely(func() string { return implOp(newOp, &t0, cwd) })
+	stop := make(chan struct{})
+	done := make(chan struct{})
+	for gI := 0; gI < G; gI++ {
+		go func(gI int) {
+			defer func() { done <- struct{}{} }()
+			for i := 0; ; i++ {
+				select {
+				case <-stop:
+					return
+				default:
+				}
+				var t *textwire.Template
+				safely(func() string { return implOp(side[(i+gI)%len(side)], &t, cwd) })
+			}
+		}(gI)
+	}
+	bad := ""
+	for i := 0; i < loads && bad == ""; i++ {
+		var t *textwire.Template
+		if got := safely(func() string { return implOp(newOp, &t, cwd) }); got != want {
+			bad = fmt.Sprintf("LOADCONC mismatch load=%d got=%s want=%s", i, got, want)
+		}
+	}
+	close(stop)
+	for gI := 0; gI < G; gI++ {
+		<-done
+	}
+	if bad != "" {
+		return bad
+	}
+	return fmt.Sprintf("LOADCONC ok loads=%d answer=%s", loads, clipS(want, 60))
+}
+
+func clipS(s string, n int) string {
+	if len(s) > n {
+		return s[:n]
+	}
+	return s
+}
 
 func implConc(cwd string, fsT *term, f []string, home string) string {
 	G, _ := strconv.Atoi(f[0])
